@@ -35,6 +35,8 @@ pub struct CliCase {
     pub file_targets: Option<String>,
     pub tz: Option<String>,
     pub lc_all: String,
+    /// 0 = minimal environment; 1, 2 = two hostile environments (see `hostile_env`)
+    pub env: u8,
 }
 
 impl CliCase {
@@ -43,7 +45,7 @@ impl CliCase {
             "delims": self.delims.as_ref().map(|d| json!([d.0, d.1])),
             "names": self.names.as_ref().map(|d| json!([d.0, d.1])),
             "offset": self.offset, "now": self.now, "flag_targets": self.flag_targets,
-            "file_targets": self.file_targets, "tz": self.tz, "lc_all": self.lc_all})
+            "file_targets": self.file_targets, "tz": self.tz, "lc_all": self.lc_all, "env": self.env})
     }
     pub fn from_json(v: &Value) -> Option<CliCase> {
         let pair = |x: &Value| -> Option<(String, String)> {
@@ -67,6 +69,7 @@ impl CliCase {
             file_targets: v["file_targets"].as_str().map(|s| s.to_string()),
             tz: v["tz"].as_str().map(|s| s.to_string()),
             lc_all: v["lc_all"].as_str()?.to_string(),
+            env: v["env"].as_u64().unwrap_or(0) as u8,
         })
     }
     /// The configuration the options stand for, with the documented defaults.
@@ -140,6 +143,62 @@ pub struct RunOut {
     pub produced: Vec<u8>,
 }
 
+/// Environment variables a command-line tool might consult although nothing documents it: clock
+/// overrides, colour / terminal switches, and for every long option an upper-case variable (bare
+/// and with the program's name in front) holding a value that would change the result.
+pub fn hostile_env(which: u8) -> Vec<(String, String)> {
+    if which == 0 {
+        return vec![];
+    }
+    let past = which == 1;
+    let mut v: Vec<(String, String)> = vec![
+        ("SOURCE_DATE_EPOCH", if past { "0" } else { "4102444800" }),
+        ("FAKETIME", if past { "1980-01-01 00:00:00" } else { "2999-01-01 00:00:00" }),
+        ("NOW", if past { "1980-01-01T00:00:00Z" } else { "2999-01-01T00:00:00Z" }),
+        ("NO_COLOR", "1"),
+        ("CLICOLOR", "0"),
+        ("CLICOLOR_FORCE", if past { "0" } else { "1" }),
+        ("TERM", if past { "dumb" } else { "xterm-256color" }),
+        ("COLORTERM", "truecolor"),
+        ("COLUMNS", "10"),
+        ("LINES", "3"),
+        ("HOME", "/nonexistent"),
+        ("USER", "nobody"),
+        ("LANGUAGE", "ja:en"),
+        ("LC_TIME", "ja_JP.UTF-8"),
+        ("LC_CTYPE", "ja_JP.UTF-8"),
+        ("RUST_LOG", "trace"),
+        ("RUST_BACKTRACE", "1"),
+        ("POSIXLY_CORRECT", "1"),
+        ("DEBUG", "1"),
+        ("CI", "true"),
+    ]
+    .into_iter()
+    .map(|(k, v)| (k.to_string(), v.to_string()))
+    .collect();
+    let opts: &[(&str, &str)] = &[
+        ("filename", "/nonexistent/in"),
+        ("output", "/nonexistent/out"),
+        ("delimiter-start", "[["),
+        ("delimiter-end", "]]"),
+        ("time-limited-tag-name", "zz"),
+        ("time-limited-time-offset", if past { "-12:00" } else { "+14:00" }),
+        ("time-limited-current", if past { "1980-01-01T00:00:00Z" } else { "2999-01-01T00:00:00Z" }),
+        ("removal-marker-tag-name", "yy"),
+        ("removal-marker-target-name", "a"),
+        ("removal-marker-target-config", "/nonexistent/targets"),
+        ("list", "true"),
+        ("list-all", "true"),
+        ("list-json", "true"),
+    ];
+    for (o, val) in opts {
+        let up = o.to_uppercase().replace('-', "_");
+        v.push((up.clone(), val.to_string()));
+        v.push((format!("CHIRITORI_{up}"), val.to_string()));
+    }
+    v
+}
+
 pub fn run_binary(c: &CliCase, wd: &WorkDir) -> Result<RunOut, String> {
     let inp = format!("{}/in.txt", wd.path);
     let outp = format!("{}/out.txt", wd.path);
@@ -152,6 +211,9 @@ pub fn run_binary(c: &CliCase, wd: &WorkDir) -> Result<RunOut, String> {
     cmd.env("LANG", &c.lc_all);
     if let Some(tz) = &c.tz {
         cmd.env("TZ", tz);
+    }
+    for (k, v) in hostile_env(c.env) {
+        cmd.env(k, v);
     }
     if !c.stdin || c.out == "inplace" {
         std::fs::write(&inp, &c.src).map_err(|e| format!("harness: {e}"))?;
@@ -295,7 +357,9 @@ const NOWS: &[&str] = &[
     "2030-06-01T12:00:00+09:00",
     // west of UTC, and before every `to` in the documents: if the explicit instant were lost and
     // the wall clock used instead, the expired elements would be removed
-    "1995-06-30T16:00:00-08:00",
+    // ... and inside the hour that the clocks of America/Los_Angeles repeat (01:30 PDT on the last
+    // Sunday of October 1995): a detour through local wall-clock time is ambiguous there
+    "1995-10-29T01:30:00-07:00",
 ];
 const TZS: &[Option<&str>] = &[
     Some("UTC"),
@@ -328,7 +392,7 @@ pub fn run(r: &Report) {
     let mut docs: Vec<String> = DOCS.iter().map(|s| s.to_string()).collect();
     let (tzs, lcs): (Vec<Option<&str>>, Vec<&str>) = match r.tier {
         Tier::Quick => {
-            (vec![Some("UTC"), Some("Asia/Tokyo"), None], vec!["C"])
+            (vec![Some("UTC"), Some("Asia/Tokyo"), Some("America/Los_Angeles"), None], vec!["C"])
         }
         Tier::Thorough => {
             docs.extend(ast_docs(8));
@@ -384,6 +448,7 @@ pub fn run(r: &Report) {
                 file_targets: target_menu[dg[8]].1.map(|s| s.to_string()),
                 tz: tzs[dg[9]].map(|s| s.to_string()),
                 lc_all: lcs[dg[10]].into(),
+                env: 0,
             };
             c.src = render_doc(&docs[dg[0]], &c);
             let l = &mut w.l;
@@ -425,12 +490,73 @@ pub fn run(r: &Report) {
     r.extra("process_runs", json!(counted));
     if !r.stopped() {
         big_documents(r);
+        if !r.stopped() {
+            hostile_environments(r);
+        }
     }
 }
 
 /// Documents larger than any plausible I/O buffer (1 KiB .. > 64 KiB pipe capacity), mostly
 /// multi-byte text, in three byte alignments so that every power-of-two offset falls inside
 /// a character for some alignment: input and output routes x modes, default options.
+/// The hand-written documents in every mode under the two hostile environments: nothing but the
+/// options (and the documented defaults) may shape the result.
+fn hostile_environments(r: &Report) {
+    let radices = [DOCS.len(), MODES.len(), 2, NOWS.len(), 2, 2];
+    let expected: u64 = radices.iter().map(|&x| x as u64).product();
+    let counted = explore_product(
+        &radices,
+        || W {
+            l: r.local(),
+            wd: WorkDir::new(),
+        },
+        |w: &mut W, dg| {
+            let mut c = CliCase {
+                src: String::new(),
+                mode: MODES[dg[1]].into(),
+                stdin: dg[2] == 1,
+                out: "stdout".into(),
+                delims: None,
+                names: None,
+                offset: None,
+                now: NOWS[dg[3]].into(),
+                flag_targets: if dg[4] == 1 { vec!["b".into()] } else { vec![] },
+                file_targets: None,
+                tz: Some("America/Los_Angeles".into()),
+                lc_all: "C".into(),
+                env: 1 + dg[5] as u8,
+            };
+            c.src = render_doc(DOCS[dg[0]], &c);
+            let l = &mut w.l;
+            l.eval();
+            l.transition(1);
+            let h = hash64(&[c.to_json().to_string().as_bytes()]);
+            l.state(h);
+            match check(&c, &w.wd) {
+                Err(e) => l.r.machinery_failure(format!("cli harness: {e} on {}", c.to_json())),
+                Ok(res) => {
+                    l.trace_validated(1);
+                    l.class("hostile-environment");
+                    let want = c.expected_output().unwrap_or_default();
+                    if if c.mode == "clean" { want != c.src } else { want.len() > 3 } {
+                        l.nontrivial(h);
+                    }
+                    if let Some((class, detail)) = res {
+                        l.violation(Violation {
+                            prop: "C20".into(),
+                            class,
+                            case: c.to_json(),
+                            detail,
+                        });
+                    }
+                }
+            }
+        },
+        &|| r.stopped(),
+    );
+    r.expect_count("C20 hostile environments", expected, counted);
+}
+
 fn big_documents(r: &Report) {
     let line = "// これは日本語のコメントです。削除されない行🧹。\n";
     let block = "<!-- <time-limited to=\"2001-01-01 00:00:00\"> -->\n期限切れ🧹\n<!-- </time-limited> -->\n";
@@ -482,6 +608,7 @@ fn big_documents(r: &Report) {
                 file_targets: None,
                 tz: Some("UTC".into()),
                 lc_all: "C".into(),
+                env: 0,
             };
             let l = &mut w.l;
             l.eval();
@@ -616,6 +743,7 @@ pub fn marker_rows(r: &Report) {
                 file_targets: file,
                 tz: Some("UTC".into()),
                 lc_all: "C".into(),
+                env: 0,
             };
             let l = &mut w.l;
             l.eval();
